@@ -122,6 +122,9 @@ func genC08(rt *rapid.T, h *harness.H) interface{} {
 	}
 	c := &caseC08{Text: typesProgram(decls, false), Rewrite: log}
 	for _, nme := range env.Order {
+		if (strings.HasPrefix(nme, "Dg") || strings.HasPrefix(nme, "Dh")) && nme[2:] != "0" && nme[2:] != "1" {
+			continue // of a dag family only the two top levels are compared pairwise (the depth below them is what matters)
+		}
 		c.Names = append(c.Names, nme)
 		c.Cyclic = append(c.Cyclic, env.Cyclic(env.Defs[nme].Ty))
 	}
